@@ -6,7 +6,7 @@ from .common import Check, read_keyed, ROOT
 
 def nontrivial(case_line, model_line):
     k = case_line[0]
-    if k in ("H", "G", "B"):
+    if k in ("H", "G", "B", "T"):
         flags = model_line.split(" ")[2] if len(model_line.split(" ")) > 2 else ""
         return "0" in flags and "1" in flags
     return k == "S"
@@ -28,7 +28,7 @@ def main(tier, replay=None):
                 l = l.strip()
                 if l.startswith("case: "):
                     l = l[6:]
-                if l[:2] in ("H ", "B ", "G ", "S ", "V "):
+                if l[:2] in ("H ", "B ", "G ", "S ", "V ", "T "):
                     f.write(l + "\n")
     else:
         import subprocess
@@ -64,6 +64,9 @@ def main(tier, replay=None):
             if fl[0] == "H" and fl[2] == "1" and fl[3] == "0" and fl[4] == "U":
                 f.write(cl + "\n")
                 n_mon += 1
+            elif fl[0] == "T" and fl[2] != "plain":
+                f.write(cl + "\n")
+                n_mon += 1
             elif fl[0] == "B" and key in impl:
                 f.write(cl + " " + impl[key].split(" ")[2] + "\n")
                 n_mon += 1
@@ -72,21 +75,21 @@ def main(tier, replay=None):
     mon_viol = 0
     def hist_len(key):
         f = case_by_key[key].split(" ")
-        return len(f[-1]) if f[0] == "H" else len(f[3])
+        return len(f[-1]) if f[0] in ("H", "T") else len(f[3])
     for key, sl in sorted(spec.items(), key=lambda kv: hist_len(kv[0])):
         il = impl.get(key)
         if il is None:
             continue
-        if key.startswith("H "):
+        if key.startswith("H ") or key.startswith("T "):
             want = sl.split(" ")[2] if len(sl.split(" ")) > 2 else ""
             got = il.split(" ")[2] if len(il.split(" ")) > 2 else ""
             if want != got:
                 mon_viol += 1
                 if mon_viol <= 3:
-                    hist = case_by_key[key].split(" ")[5].split(",")
+                    hist = case_by_key[key].split(" ")[-1].split(",")
                     i = next((j for j in range(min(len(want), len(got))) if want[j] != got[j]), 0)
                     c.violation("unicast-history", "\n".join([
-                        "property C04 fails on the implementation (secure unicast, fresh session):",
+                        "property C04 fails on the implementation (secure unicast, fresh session; H = receive window, T = Session::post_recv):",
                         "case: " + case_by_key[key],
                         "history prefix: " + ",".join(hist[: i + 1]),
                         "implementation accept flags: " + got,
